@@ -124,6 +124,7 @@ func corpusCrash() []*modSpec {
 		mk("generic-basic-arg", std, "models", "type S struct {\n\tA Generic[int]\n\tB Generic[string]\n}\n", modFile{"other.go", "package models\n\ntype Generic[T any] struct {\n\tV T\n\tValid bool\n}\n"}),
 		mk("generic-composite-arg", std, "models", "type S struct {\n\tA Generic[[]string]\n\tB Generic[map[string]int]\n\tC Generic[[2]int]\n}\n", modFile{"other.go", "package models\n\ntype Generic[T any] struct {\n\tV T\n\tValid bool\n}\n"}),
 		mk("generic-two-args", std, "models", "type K int\ntype S struct {\n\tA Pair[K, string]\n\tB Pair[string, []K]\n}\n", modFile{"other.go", "package models\n\ntype Pair[A comparable, B any] struct {\n\tFirst A\n\tSecond B\n}\n"}),
+		mk("grouped-types-without-doc", std, "models", "type (\n\tSolo struct {\n\t\tA int\n\t}\n)\n\ntype (\n\t// Documented has a comment\n\tDocumented struct {\n\t\tB string\n\t}\n\tPlain struct {\n\t\tC []Solo\n\t}\n\tCount int\n)\n\ntype S struct {\n\tX Solo\n\tY Documented\n\tZ Plain\n\tN Count\n}\n", modFile{"sub/sub.go", "package sub\n\ntype (\n\tInSub struct{ V int }\n)\n"}),
 		mk("generic-named-arg", std, "models", "type IdX int64\ntype S struct {\n\tA Generic[IdX]\n}\n", modFile{"other.go", "package models\n\ntype Generic[T any] struct {\n\tV T\n\tValid bool\n}\n"}),
 		mk("named-pointer", std, "models", "type T struct{ X int }\ntype P *T\ntype S struct{ V P }\n"),
 		mk("self-pointer", std, "models", "type P *P\ntype S struct{ V P }\n"),
